@@ -481,6 +481,7 @@ type bndEngine struct {
 	rounds   int
 	giveUp   []string
 	stable   bool
+	seq      *ssa.Parameter // parameter mode: the sequence is this string / []byte / []rune parameter of the one function analysed
 	noPre    bool
 	roots    map[*ssa.Function]map[string]bool
 	siteIdx  map[siteKey]int
@@ -537,7 +538,21 @@ func newBndEngine(c *Ctx, pkgPath, typeName string) (*bndEngine, error) {
 	return e, nil
 }
 
+// newBndParamEngine: the same analysis for ONE function and ONE string / []byte / []rune parameter of it: every
+// fact is relative to the length of that parameter; callees are opaque
+func newBndParamEngine(c *Ctx, f *ssa.Function, p *ssa.Parameter) *bndEngine {
+	e := &bndEngine{c: c, inPkg: map[*ssa.Function]bool{f: true}, stores: map[*ssa.Function]bool{},
+		mods: map[*ssa.Function]bool{}, open: map[*ssa.Function]bool{f: true}, pre: map[*ssa.Function]*bpre{}, sum: map[*ssa.Function]*bsum{},
+		reqs: map[*ssa.Function][]bReq{}, lockstep: map[*ssa.Phi][]bLock{}, roots: map[*ssa.Function]map[string]bool{}, seq: p}
+	e.fns = []*ssa.Function{f}
+	e.findLockstep(f)
+	return e
+}
+
 func (e *bndEngine) isChunkAddr(v ssa.Value) bool {
+	if e.recv == nil {
+		return false
+	}
 	fa, ok := v.(*ssa.FieldAddr)
 	if !ok {
 		return false
@@ -552,6 +567,9 @@ func (e *bndEngine) isChunkLoad(v ssa.Value) bool {
 
 // recvPath: v is the address recv.a.b... of the function's receiver (or of any value of the lexer type)
 func (e *bndEngine) recvPath(v ssa.Value) (string, bool) {
+	if e.recv == nil {
+		return "", false
+	}
 	path := ""
 	for {
 		fa, ok := v.(*ssa.FieldAddr)
@@ -910,6 +928,32 @@ func isCell(v ssa.Value) bool {
 	return false
 }
 
+// isByteSeqType: string or []byte
+func isByteSeqType(t types.Type) bool {
+	if isStringType(t) {
+		return true
+	}
+	if sl, ok := types.Unalias(t).Underlying().(*types.Slice); ok {
+		if b, ok := sl.Elem().Underlying().(*types.Basic); ok && b.Kind() == types.Uint8 {
+			return true
+		}
+	}
+	return false
+}
+
+// isSeqType: string, []byte or []rune
+func isSeqType(t types.Type) bool {
+	if isByteSeqType(t) {
+		return true
+	}
+	if sl, ok := types.Unalias(t).Underlying().(*types.Slice); ok {
+		if b, ok := sl.Elem().Underlying().(*types.Basic); ok && b.Kind() == types.Int32 {
+			return true
+		}
+	}
+	return false
+}
+
 func isStringType(t types.Type) bool {
 	b, ok := types.Unalias(t).Underlying().(*types.Basic)
 	return ok && b.Info()&types.IsString != 0
@@ -1068,7 +1112,7 @@ func (e *bndEngine) eval(v ssa.Value, st *bstate, depth int) bfact {
 			}
 		}
 	case *ssa.Call:
-		if s, ok := isLenCall(v); ok && isStringType(s.Type()) {
+		if s, ok := isLenCall(v); ok && isSeqType(s.Type()) {
 			g := bfact{bInf, 0}
 			if st.cur[s] {
 				g = bfact{0, st.L}
@@ -1500,6 +1544,9 @@ func (e *bndEngine) entryState(f *ssa.Function) *bstate {
 			st.cdel[par] = 0
 		}
 	}
+	if e.seq != nil {
+		st.cur[e.seq] = true
+	}
 	if e.open[f] {
 		return st
 	}
@@ -1730,8 +1777,18 @@ func (e *bndEngine) transfer(f *ssa.Function, b *ssa.BasicBlock, st *bstate, pos
 					st.alias[x.Val] = x.Addr
 				}
 			}
+		case *ssa.Convert:
+			// string(b) / []byte(s): another sequence of the same length
+			if st.cur[x.X] && isByteSeqType(x.X.Type()) && isByteSeqType(x.Type()) {
+				st.cur[x] = true
+			}
+		case *ssa.IndexAddr:
+			if st.cur[x.X] {
+				e.need(f, ins, "index", "chunk[k]", x.Index, -1, true, st)
+				e.refine(x.Index, bfact{-1, 0}, st, 0)
+			}
 		case *ssa.Index:
-			if !isStringType(x.X.Type()) {
+			if !isSeqType(x.X.Type()) {
 				continue
 			}
 			if st.cur[x.X] {
@@ -1741,7 +1798,7 @@ func (e *bndEngine) transfer(f *ssa.Function, b *ssa.BasicBlock, st *bstate, pos
 				e.record(bSite{fn: f, ins: ins, kind: "index", what: "chunk[k]", ok: false, note: "the indexed string is an earlier content of the input (the input was modified since it was read)", pos: ins.Pos()})
 			}
 		case *ssa.Slice:
-			if !isStringType(x.X.Type()) {
+			if !isSeqType(x.X.Type()) {
 				continue
 			}
 			if st.cur[x.X] {
@@ -1763,7 +1820,9 @@ func (e *bndEngine) transfer(f *ssa.Function, b *ssa.BasicBlock, st *bstate, pos
 		case *ssa.Call:
 			e.transferCall(f, x, st, post)
 		case *ssa.Defer, *ssa.Go:
-			st.chunkModified()
+			if e.seq == nil {
+				st.chunkModified()
+			}
 		}
 	}
 }
@@ -1771,6 +1830,9 @@ func (e *bndEngine) transfer(f *ssa.Function, b *ssa.BasicBlock, st *bstate, pos
 func (e *bndEngine) mayModify(call *ssa.Call) bool {
 	if _, ok := call.Call.Value.(*ssa.Builtin); ok {
 		return false
+	}
+	if e.seq != nil {
+		return false // the length of a string / of a slice value passed by value cannot be changed by a callee
 	}
 	if g := call.Call.StaticCallee(); g != nil {
 		return e.mods[g]
